@@ -145,6 +145,8 @@ GENERATOR_RESTRICTIONS = [
     "'in' with a DEFAULT Undefined operand (doc: 'any other operation raises', real: type equality / False), "
     "len()/|length of it (real: 0), hashing it (dict key / subscript key), any test other than defined/undefined, "
     "any filter other than default/d/string/list/join/first/sum on it",
+    "values handed to printf-style % formatting or to a str method (format, join...) must have a documented text (no "
+    "undefined nested inside a container, no object whose repr contains a memory address)",
     "slices only on str/list/tuple values (doc describes x[...] as item-then-attribute-then-undefined; the real "
     "compiler emits a plain Python slice so e.g. 5[1:2] raises TypeError instead of being undefined): not compared",
     "string filters upper/lower/capitalize/trim/replace only on plain str values with str arguments; int filter not "
@@ -164,6 +166,10 @@ GENERATOR_RESTRICTIONS = [
     "folds it into a bare negative literal written in front of ** in the generated Python, so '(1 - 4) ** i2' is -9 in "
     "the default environment and 9 with optimized=False (real defect on the unchanged tree, kept failing separately "
     "by the obligation C02.bounded.negconst_pow)",
+    "for the StrictUndefined environment: no tree with a constant-foldable sub-expression whose evaluation raises "
+    "UndefinedError (e.g. \"1 if bt else ('<'[3] or 2)\"): the optimizer evaluates and/or/~/if-expression constants at "
+    "compile time without a guard, so compilation raises UndefinedError even when the branch is never taken (real "
+    "defect on the unchanged tree, kept failing separately by the obligation C02.bounded.strict_fold_untaken)",
     "a call is never applied directly to a filter/test result without parentheses; call arguments are written "
     "positional, then *args, then keywords, then **kwargs (or keywords before *args), never positional after *args "
     "(doc only promises Python-like positional and keyword arguments)",
@@ -439,7 +445,10 @@ def _r(n):
     if t == "dict":
         return "{" + ", ".join(_s(k, P_COND) + ": " + _s(v, P_COND) for k, v in n[1]) + "}"
     if t in ("neg", "pos"):
-        inner = _s(n[1], P_UNARY)
+        if NEG_POW_PYTHON_LIKE and n[1][0] == "bin" and n[1][1] == "**":
+            inner = _r(n[1])  # Python reading: -a ** b is -(a ** b)
+        else:
+            inner = _s(n[1], P_UNARY)
         sign = "-" if t == "neg" else "+"
         return sign + (" " if inner[:1] in "+-" else "") + inner
     if t == "not":
@@ -594,6 +603,8 @@ def ref_getitem(cx, obj, key):
     # foo['bar'] -> foo['bar'], then getattr(foo, 'bar'), then undefined
     if is_undef(obj):
         obj._fail()
+    if is_undef(key):
+        raise DocSilent("subscript with an undefined key")
     try:
         return obj[key]
     except (LookupError, TypeError):
@@ -622,6 +633,10 @@ def _binop(op, a, b):
     if op == "//":
         return a // b
     if op == "%":
+        if isinstance(a, str):  # printf-style formatting prints the arguments
+            for x in (b if isinstance(b, tuple) else (b,)):
+                if not printable(x):
+                    raise DocSilent("formatting a value whose text is not defined")
         return a % b
     if op == "**":
         if isinstance(a, (int, float)) and isinstance(b, (int, float)) and not isinstance(a, RefUndefined):
@@ -967,6 +982,10 @@ def ev(n, cx):
                 if k in kwargs:
                     raise TypeError("multiple values for keyword argument")
                 kwargs[k] = v
+        if isinstance(getattr(fn, "__self__", None), str):  # str.format & co print their arguments
+            for x in list(args) + list(kwargs.values()):
+                if not printable(x):
+                    raise DocSilent("formatting a value whose text is not defined")
         return _small(fn(*args, **kwargs))
     if t == "filter":
         v = ev(n[1], cx)
@@ -1783,18 +1802,61 @@ def pow_chain_ok(n):
     return all(pow_chain_ok(x) for x in n if isinstance(x, list))
 
 
+class _TouchedName(BaseException):
+    pass
+
+
+class _NoNames(dict):
+    """data context of the constant folder: touching any name aborts the evaluation"""
+
+    def __contains__(self, key):
+        raise _TouchedName(key)
+
+
+def _fold_outcome(n, strict):
+    """outcome of evaluating `n` the way a constant folder could (no names available): ('ok', v) | ('exc', name) |
+    None when a name is needed"""
+    try:
+        return ("ok", ev(n, Cx(_NoNames(), {"strict": strict})))
+    except _TouchedName:
+        return None
+    except DocSilent:
+        return None
+    except Exception as ex:  # noqa: BLE001
+        return ("exc", type(ex).__name__)
+
+
+def _subtrees(n):
+    if isinstance(n, list) and n:
+        if isinstance(n[0], str) and n[0] not in ("c", "n"):
+            yield n
+        for x in (n[1:] if isinstance(n[0], str) else n):
+            if isinstance(x, list):
+                yield from _subtrees(x)
+
+
+def strict_fold_hazard(tree):
+    """a constant-foldable sub-expression that raises UndefinedError under StrictUndefined: the optimizer evaluates it
+    at COMPILE time without a guard (and/or/~/if-expression), also in branches that are never taken (real defect,
+    obligation C02.bounded.strict_fold_untaken)"""
+    for sub in _subtrees(tree):
+        o = _fold_outcome(sub, True)
+        if o is not None and o[0] == "exc" and o[1] == "UndefinedError":
+            return True
+    return False
+
+
 def negconst_pow(n):
     """a ** whose left operand is a name-free (constant-foldable) expression with a negative value: the optimizer
     folds it to a bare negative literal in front of ** (real defect, obligation C02.bounded.negconst_pow)"""
     if not isinstance(n, list) or not n:
         return False
-    if n[0] == "bin" and n[1] == "**" and not names_of(n[2]):
-        try:
-            v = ev(n[2], Cx({}, {}))
+    if n[0] == "bin" and n[1] == "**":
+        o = _fold_outcome(n[2], False)  # also e.g. '(-4 or x) ** y': 'or' folds by short circuit
+        if o is not None and o[0] == "ok":
+            v = o[1]
             if isinstance(v, (int, float)) and not isinstance(v, bool) and v < 0:
                 return True
-        except BaseException:  # noqa: BLE001
-            pass
     return any(negconst_pow(x) for x in n if isinstance(x, list))
 
 
@@ -1813,6 +1875,8 @@ def gen_expression(seed, idx, flags_list=({"strict": False},)):
         except (ValueError, AssertionError):
             continue
         if len(src) > 160 or negconst_pow(tree):
+            continue
+        if any(fl.get("strict") for fl in flags_list) and strict_fold_hazard(tree):
             continue
         ok = True
         err = False
@@ -1839,6 +1903,7 @@ def gen_expression(seed, idx, flags_list=({"strict": False},)):
 # the system under test
 # ---------------------------------------------------------------------------------------------------------
 
+import asyncio  # noqa: E402,F401  (imported here so that no alarm can interrupt its first import)
 import jinja2  # noqa: E402  (the harness arranges sys.path: unchanged tree or a scratch copy)
 import jinja2.sandbox  # noqa: E402
 
@@ -1870,7 +1935,7 @@ class _Timeout(Exception):
     pass
 
 
-def _guarded(fn, seconds=5):
+def _guarded(fn, seconds=30):
     """run fn() with an alarm when we are on the main thread (runaway pow under a misparse)"""
     use_alarm = threading.current_thread() is threading.main_thread() and hasattr(signal, "setitimer")
     if not use_alarm:
@@ -2184,6 +2249,18 @@ def _negconst_pow_trees():
             ["bin", "**", three, C(2)]]                                        # (1 - 4) ** 2     (control: agrees)
 
 
+def _strict_fold_trees():
+    first = ["filter", ["list", []], "first", [], [], 0]
+    item = ["item", C("<"), C(3)]
+    attr = ["attr", ["dict", []], "a"]
+    return [["cond", C(1), N("bt"), ["or", first, C(2)]],              # 1 if bt else ([]|first or 2)
+            ["cond", C(1), N("bt"), ["bin", "~", C("x"), item]],       # 1 if bt else 'x' ~ '<'[3]
+            ["or", N("i1"), ["and", item, C(2)]],                      # i1 or '<'[3] and 2
+            ["cond", C(1), N("bt"), ["cond", C(2), attr, C(3)]],       # 1 if bt else 2 if {}.a else 3
+            ["and", N("i0"), ["bin", "~", first, C("x")]],             # i0 and []|first ~ 'x'
+            ["cond", C(1), N("bt"), ["or", ["filter", N("le"), "first", [], [], 0], C(2)]]]  # control (name): agrees
+
+
 def _then_keyword_trees():
     x, y = N("i1"), N("u")
     out = []
@@ -2248,8 +2325,12 @@ _kw_run, _kw_replay = _fixed(_then_keyword_trees, ["default"], True, "'<x> is <t
 _np_run, _np_replay = _fixed(_negconst_pow_trees, ["default", "unoptimized"], False,
                              "'<negative constant expression> ** <name>'",
                              "the optimizer folds the left operand to a bare negative literal in front of **")
+_sf_run, _sf_replay = _fixed(_strict_fold_trees, ["strict"], False,
+                             "'<value> if <true> else <constant expression using an undefined value>'",
+                             "the optimizer evaluates the untaken constant branch at compile time without a guard")
 EXTRA_TASKS = [_KnownTask(PROP, "C02.bounded.test_then_keyword", _kw_run, "bounded", _kw_replay),
-               _KnownTask(PROP, "C02.bounded.negconst_pow", _np_run, "bounded", _np_replay)]
+               _KnownTask(PROP, "C02.bounded.negconst_pow", _np_run, "bounded", _np_replay),
+               _KnownTask(PROP, "C02.bounded.strict_fold_untaken", _sf_run, "bounded", _sf_replay)]
 
 
 def make_tasks(nshards=4):
